@@ -904,3 +904,34 @@ fire("c06-excluded-constant-names-the-input", "C06", B + "bijection.py",
      "def _unwrap_check_and_cast(method):", "_EXCLUDE_NOTHING = frozenset()\n_EXCLUDE_CONDITION = frozenset([0])\n\n\n"
      "def _unwrap_check_and_cast(method):", "C06.lift")
 CORPUS[-1]["edits"].extend(_EXCL)
+
+# the vectoriser's dependence on cond_shape, decided on the regimes None / () / (n,)
+_MC_VEC = "        maybe_cond = [] if self.cond_shape is None else [self.cond_shape]"
+silent("c06-benign-maybe-cond-flipped", ["C06", "C13"], D, _MC_VEC,
+       "        maybe_cond = [self.cond_shape] if self.cond_shape is not None else []")
+fire("c06-maybe-cond-by-truthiness", "C06", D, _MC_VEC,
+     "        maybe_cond = [self.cond_shape] if self.cond_shape else []", "C06.lift")
+fire("c06-excluded-by-truthiness", "C06", D, "        ex = frozenset([1]) if self.cond_shape is None else frozenset()",
+     "        ex = frozenset() if self.cond_shape else frozenset([1])", "C06.lift")
+# the cores on the flattened form: both halves from it (fine for the wiring), or mixed with the unmerged self
+_SLP_OLD = ("        base_sample, log_prob_base = self.base_dist._sample_and_log_prob(key, condition)\n"
+            "        sample, forward_log_dets = self.bijection.transform_and_log_det(")
+silent("c03-benign-joint-path-on-merged-form", ["C03"], D, _SLP_OLD,
+       "        dist = self.merge_transforms()\n"
+       "        base_sample, log_prob_base = dist.base_dist._sample_and_log_prob(key, condition)\n"
+       "        sample, forward_log_dets = dist.bijection.transform_and_log_det(")
+fire("c03-joint-path-mixes-merged-and-unmerged", "C03", D, _SLP_OLD,
+     "        dist = self.merge_transforms()\n"
+     "        base_sample, log_prob_base = dist.base_dist._sample_and_log_prob(key, condition)\n"
+     "        sample, forward_log_dets = self.bijection.transform_and_log_det(", "C03.wire")
+
+_LPC_OLD = ("        z, log_abs_det = self.bijection.inverse_and_log_det(x, condition)\n"
+            "        p_z = self.base_dist._log_prob(z, condition)")
+silent("c03-benign-log-prob-on-merged-form", ["C03", "C18", "C05", "C04", "C17"], D, _LPC_OLD,
+       "        dist = self.merge_transforms()\n"
+       "        z, log_abs_det = dist.bijection.inverse_and_log_det(x, condition)\n"
+       "        p_z = dist.base_dist._log_prob(z, condition)")
+fire("c03-log-prob-merged-bijection-unmerged-base", "C03", D, _LPC_OLD,
+     "        dist = self.merge_transforms()\n"
+     "        z, log_abs_det = dist.bijection.inverse_and_log_det(x, condition)\n"
+     "        p_z = self.base_dist._log_prob(z, condition)", "C03.wire")
